@@ -84,11 +84,12 @@ pub async fn run_case(backend: &str, seed: u64, rep: &mut Report, ops: &mut Vec<
             Some(c) => match cur.iter().rposition(|r| sha256(&r.1) == c.0) { Some(p) => cur[..=p].iter().map(|r| r.1.clone()).collect(), None => cur.iter().map(|r| r.1.clone()).collect() },
             None => cur.iter().map(|r| r.1.clone()).collect(),
         };
-        // half of the patches carry the records the rewind removes (what a client's merged patch does); the others
+        // a third of the patches carry the records the rewind removes (what a client's merged patch does), a third only the oldest of them; the others
         // are refused by the stale-rewind guard unless the target is the newest record
-        if rng.chance(1, 2) {
+        let carry = rng.below(3);   // 0: every removed record, 1: only the oldest of them, 2: none
+        if carry < 2 {
             let mut carried: Vec<(Row, EventRecord)> = vec![];
-            for r in cur[base_after.len()..].iter() {
+            for r in cur[base_after.len()..].iter().take(if carry == 0 { usize::MAX } else { 1 }) {
                 let time: UtcDateTime = time::OffsetDateTime::from_unix_timestamp_nanos(r.0).unwrap().into();
                 carried.push(((r.0, r.1.clone()), EventRecord::new(time, Default::default(), CommitHash(sha256(&r.1)), r.1.clone())));
             }
